@@ -15,6 +15,7 @@ import os
 import random
 
 from core import Report, Work, run_tlc, use_repo, seed, MachineryError
+import filterlex
 
 KINDS = ['num', 'str', 'boolT', 'boolF', 'uri', 'ref', 'date', 'time', 'dt', 'qty', 'inf']
 KIDX = {k: i + 1 for i, k in enumerate(KINDS)}
@@ -646,6 +647,9 @@ def observe_kindred(b):
 def report_violations(rep, viol):
     """First one example of every class (so that each gets a replay file), then the rest."""
     def coarse(f):
+        if f.get('role') == 'D':
+            return ('D', f.get('clause'), f.get('deref'), f.get('escape_in_literal'), f.get('bin_literal'),
+                    f.get('loose_blanks'), f.get('exc'))
         if f.get('clause') == 'raises':
             return ('raises', f.get('exc'), f.get('stage'),
                     'deref_through_non_ref' if f.get('hop') in ('marker', 'value') else
@@ -765,13 +769,32 @@ def run(tier):
                               'got': {'out': c['out'], 'exc': c.get('exc', ''), 'selected': c['sel']}}))
         accepted += [e for li, e in enumerate(fevs, 1) if (1, li) not in frej]
         selftest(rep, work, accepted, bool(viol))
+        # (D) character level: literals by value, spelling variants, Ref ids, spec/FilterLex.tla
+        fstats, frejs, fcases, _ = filterlex.run(rep, work, hs, tier, rng)
+        rep.extra['character_level'] = fstats
+        if fstats.get('judged', 0) < 0.85 * len(fcases) or fstats.get('judged_nontrivial', 0) < len(fcases) // 4:
+            raise MachineryError('character-level cases mostly unjudged: %r' % (fstats,))
+        fstats['binding_selftest_rejected'] = filterlex.selftest(rep, work, fcases)
+        for c in fcases:
+            rep.case(('D', c['text'], c['id']), nontrivial=c['nontrivial'])
+        rep.traces += len(fcases)
+        rep.sample({'character_level_case': {'text': fcases[-1]['text'], 'rows': fcases[-1]['rows_repr'],
+                                             'outcome': fcases[-1]['out'], 'selected': fcases[-1]['sel']}})
+        for c, clause in frejs:
+            viol.append((filterlex.features(c, clause),
+                         {'role': 'D', 'text': c['text'], 'recipe': c['recipe'], 'rows': c['rows_repr'],
+                          'clause': clause, 'allowed_per_row': c.get('allowed', []),
+                          'got': {'out': c['out'], 'msg': c['msg'], 'selected': c['sel']}}))
         rep.extra['kindred_kind_observations_not_judged'] = observe_kindred(b)
         report_violations(rep, viol)
     rep.rule = ('generated: every <<filter AST, style>> of the bounded generator (all ASTs of size <= %d over '
                 'paths a, b, c, a->b x 6 operators x 11 literal kinds, and/or chains up to 4 operands and mixed '
                 'and/or/parenthesis shapes) on a grid realising the full product of the valuations its atoms '
                 'distinguish, distinct by filter text; random: seeded filters of size 3..14 on random grids, '
-                'judged case by case by Trace_FilterSem' % (2 if quick else 3))
+                'judged case by case by Trace_FilterSem; character level: seeded filters over literal spellings of '
+                'every kind (number forms, escapes, blanks inside literals, zone-less date-times, lists, XStr, Bin), '
+                'rows with Ref ids and near-equal values, judged by Trace_FilterLex (recursive-descent reader + '
+                'ZincRead literal values)' % (2 if quick else 3))
     rep.exhaustive = True
     rep.assumptions = [
         'one literal per kind (5, "m", true, false, `m`, @lit, 2020-01-15, 12:30:00, 2020-01-15T12:30:00Z, 5kW, INF); '
@@ -781,7 +804,9 @@ def run(tier):
         'comparisons between kindred kinds (bool/number/quantity, str/uri, date/date-time) and ordering '
         'inside bool, uri, ref are unconstrained (recorded under kindred_kind_observations_not_judged); '
         'they must still not raise',
-        'blanks are spaces; no blank around ->',
+        'roles A-C: blanks are spaces, no blank around ->, one literal per kind, string ids; role D: literals by '
+        'value, Ref ids, tab/CR/LF between tokens may be refused but never mis-evaluated; literal kinds outside the '
+        'Haystack filter grammar (Marker, NA, Remove, coord, XStr, Bin, list, dict) may be refused',
     ]
     return rep.finish()
 
@@ -795,7 +820,19 @@ def replay(path):
     c = d['case']
     rep = Report('C11', 'quick')
     rep.replay_dir = rep.replay_dir + '/re'
-    if c['role'] == 'B':
+    if c['role'] == 'D':
+        from absval import Abs
+        text, rows = filterlex.build(hs, filterlex.pools(hs), c['recipe'])
+        with Work('c11r') as work:
+            rec = filterlex.record(hs, Abs(hs), text, rows, 1)
+            v = filterlex.judge(rep, work, [rec], 'replay', shards=1)[1]
+        print('filter   :', repr(text))
+        for i, r in enumerate(rows):
+            print('row %d    : %r' % (i + 1, r))
+        print('outcome  : %s %s selected=%r' % (rec['out'], rec['msg'], rec['sel']))
+        print('TLC      :', v)
+        ok = v[0] == 'OK'
+    elif c['role'] == 'B':
         case = {'text': [ord(ch) for ch in c['text']], 'rows': c['rows'], 'exp': c['allowed_per_row'],
                 'lims': c['lims'], 'ast': c['ast']}
         src_shape, calls = execute(b, c['text'], c['rows'], limits_of(case))
